@@ -267,9 +267,12 @@ pub fn c05(rng: &mut Rng, _tier: &str, idx: usize) -> Case {
         };
         let a = gen_subset(rng, &ids, na);
         let b = if rng.chance(1, 8) { a.clone() } else { gen_subset(rng, &ids, nb) };
-        let spec = format!("{}{}", *rng.pick(&["s", "t", "t", "n", "n", "m", "u", "u", "v"]), rng.below(64));
+        let spec = format!("{}{}", *rng.pick(&["s", "t", "t", "n", "n", "m", "u", "u", "v", "i", "j"]), rng.below(64));
         c.op(format!("setsim 0 {} {} {} {}", spec, combs[(i + idx) % 3], ids_str(&a), ids_str(&b)));
         c.stat("set_pairs", 1);
+        if spec.starts_with('i') || spec.starts_with('j') {
+            c.stat("non_finite_tables", 1);
+        }
         if a.len() != b.len() && !a.is_empty() && !b.is_empty() {
             c.stat("non_square", 1);
         }
@@ -291,10 +294,13 @@ pub fn c05(rng: &mut Rng, _tier: &str, idx: usize) -> Case {
                 qs.push((gen_subset(rng, &ids, na), gen_subset(rng, &ids, nb)));
             }
         }
-        let spec = format!("{}{}", *rng.pick(&["s", "t", "t", "t", "n", "n", "u", "v"]), rng.below(64));
+        let spec = format!("{}{}", *rng.pick(&["s", "t", "t", "t", "n", "n", "u", "v", "i", "j"]), rng.below(64));
         let toks: Vec<String> = qs.iter().map(|(a, b)| format!("{}:{}", ids_str(a), ids_str(b))).collect();
         c.op(format!("cachesim 0 {} {} {}", spec, rng.pick(&combs), toks.join(" ")));
         c.stat("cached_queries", nq as u64);
+        if spec.starts_with('i') || spec.starts_with('j') {
+            c.stat("non_finite_tables", 1);
+        }
     }
     c.nontrivial = true;
     c
